@@ -5,6 +5,8 @@ From BCL Require Import Model.DumpLoad Model.Lexer Model.Api.
 From BCL Require Spec.Format.
 From BCL Require Model.Proto.
 From BCL Require Import Model.Reflect.
+From BCL Require Model.Cli.
+From BCL Require Import Model.Verify.
 Open Scope N_scope.
 
 Definition sp : N := 32.
@@ -322,6 +324,28 @@ Definition suite_bind (c : bytes) : bytes :=
   | _ => bs "bad-case"
   end.
 
+(* cli: fields = argv; prints the parsed flags or the usage error class *)
+Definition suite_cliargs (c : bytes) : bytes :=
+  let b (x : bool) := if x then [49] else [48] in
+  match Cli.parse_args (fields c) with
+  | inl (Cli.UUnknownFlag a) => bs "usage unknown-flag " ++ hex_of_bytes a
+  | inl Cli.UTooMany => bs "usage too-many"
+  | inl Cli.UBdumpName => bs "usage bdump-name"
+  | inl Cli.UConflict => bs "usage conflict"
+  | inr a => bs "ok file=" ++ hex_of_bytes (Cli.a_file a) ++ bs " d=" ++ b (Cli.a_disasm a) ++ bs " t=" ++ b (Cli.a_trace a)
+             ++ bs " r=" ++ b (Cli.a_result a) ++ bs " s=" ++ b (Cli.a_stats a) ++ bs " bdump=" ++ b (Cli.a_bdump a)
+             ++ bs " bload=" ++ b (Cli.a_bload a) ++ bs " bdumpfile=" ++ hex_of_bytes (Cli.a_bdumpFile a)
+             ++ bs " bloadfile=" ++ hex_of_bytes (Cli.a_bloadFile a) ++ bs " help=" ++ b (Cli.a_help a)
+  end.
+
+(* verify: the bytecode verifier on program parts (as produced by the REAL compiler) *)
+Definition suite_verify (c : bytes) : bytes :=
+  if verify (prog_of_parts (read_parts (fields c))) then bs "verified" else bs "REJECTED".
+(* verifysrc: parse with the model, verify, and report tosMax of a run for cross-checking *)
+Definition suite_verifysrc (c : bytes) : bytes :=
+  let pr := parse_whole (bs "input") c in
+  if pr_ok pr then (if verify (pr_prog pr) then bs "verified" else bs "REJECTED") else bs "parse-error".
+
 Definition run_suite (name : bytes) (c : bytes) : bytes :=
   if bytes_eqb name (bs "dump") then suite_dump c
   else if bytes_eqb name (bs "load") then suite_load c
@@ -336,4 +360,7 @@ Definition run_suite (name : bytes) (c : bytes) : bytes :=
   else if bytes_eqb name (bs "loadexec") then suite_loadexec c
   else if bytes_eqb name (bs "proto") then suite_proto c
   else if bytes_eqb name (bs "bind") then suite_bind c
+  else if bytes_eqb name (bs "cliargs") then suite_cliargs c
+  else if bytes_eqb name (bs "verify") then suite_verify c
+  else if bytes_eqb name (bs "verifysrc") then suite_verifysrc c
   else bs "unknown-suite".
